@@ -113,7 +113,27 @@ func (s *service) GetVersion(_ context.Context, in *pb.GetVersionRequest) (*pb.V
 	if v == nil || k.GetSystem() != pb.System_NPM {
 		return nil, notFound("version")
 	}
-	return &pb.Version{VersionKey: &pb.VersionKey{System: pb.System_NPM, Name: k.GetName(), Version: v.Version}, IsDefault: v.Default}, nil
+	return &pb.Version{VersionKey: &pb.VersionKey{System: pb.System_NPM, Name: k.GetName(), Version: v.Version}, IsDefault: v.Default, Registries: registriesFor(k.GetName(), v.Version)}, nil
+}
+
+// registriesFor is what the fake service reports as the registries of a
+// version: a third of the versions (by a hash of name and version) come from
+// a registry of their own, the others report none.
+func registriesFor(name, version string) []string {
+	h := uint32(2166136261)
+	for _, c := range []byte(name + "@" + version) {
+		h = (h ^ uint32(c)) * 16777619
+	}
+	switch h % 3 {
+	case 0:
+		return []string{"https://npm.corp.example/" + name}
+	case 1:
+		return nil
+	}
+	if h%2 == 0 {
+		return []string{"https://registry.npmjs.org/", "https://mirror.example/" + version}
+	}
+	return nil
 }
 
 func pbDeps(d Deps) *pb.Requirements_NPM_Dependencies {
